@@ -2,6 +2,7 @@
 C15 — FactoryPool spawns and releases just enough children.
 -/
 import CobaldVerif.Model.Factory
+import CobaldVerif.Generated.Src
 import Mathlib.Tactic.Linarith
 import Mathlib.Tactic.Ring
 import Mathlib.Data.List.Perm.Basic
@@ -479,5 +480,19 @@ def s0 : St := init [⟨0, 2, 1/2, 1/2, 2⟩, ⟨1, 1, 1, 1, 2⟩]
 example : ((grow fac 100 { s0 with demand := 7 } 7).map (fun s => (s.hatchery.map (·.id), s.spawned))) =
     some ([0, 1, 1000, 1001], 2) := by decide +kernel
 example : passReleased 3 [⟨0, 2, 1/2, 1/2, 2⟩, ⟨1, 1, 1, 1, 2⟩] = [⟨0, 2, 1/2, 1/2, 2⟩] := by decide +kernel
+
+/-! ### the decision in `FactoryPool.run` as it stands in the source
+
+`Generated/Src.lean` is re-emitted from the text of `composite/factory.py` on every run: the loop
+sleeps one interval first, freezes supply and demand, and shrinks towards the demand when the
+condition below holds, grows towards it otherwise. -/
+
+/-- an adjustment shrinks exactly when the source's condition holds, and grows otherwise -/
+theorem gen_adjust_eq (factory : Nat → Child) (fuel : Nat) (st : St) (order : List Nat) :
+    adjust factory fuel st order =
+      if Gen.factoryShrinks (supply st) st.demand = true then some (shrink st st.demand order)
+      else grow factory fuel st st.demand := by
+  unfold adjust Gen.factoryShrinks
+  by_cases h : st.demand < supply st <;> simp [h]
 
 end Cobald.Props.C15
